@@ -65,7 +65,7 @@ Count(s, v) == Cardinality({i \in 1..Len(s) : s[i] = v})
 Range(s) == {s[i] : i \in 1..Len(s)}
 
 TCall == /\ Ev.k = "call" /\ ~IsNopCall
-         /\ tm' = IF Ev.x.op \in SendOps \cup {"poll", "pending"} THEN [tm EXCEPT !.call[P] = l]
+         /\ tm' = IF Ev.x.op \in SendOps \cup {"poll", "pending", "close"} THEN [tm EXCEPT !.call[P] = l]
                   ELSE IF Ev.x.op \in {"create", "drop_stream"} THEN [tm EXCEPT !.churn = @ + 1] ELSE tm
          /\ IF Ev.x.op \in SendOps
             THEN /\ cands' = LQ!LqCall(cands, pend, P, [op |-> "enq", v |-> Ev.x.v], Extra)
@@ -186,6 +186,11 @@ EvBadU == IF On("InvRunningCount") /\ Ev.k = "ret" /\ Ev.fn = "running" /\ tm.ch
           ELSE IF On("InvPendingCount") /\ Ev.k = "ret" /\ Ev.fn = "pending" /\ OthersIdle /\ l = tm.call[P] + 1 /\ cands # {} /\ (\A c \in cands : Len(c.q) # Ev.x.v) THEN "InvPendingCount"
           ELSE IF On("InvRejectedSetterUninvoked") /\ Ev.k = "ret" /\ Ev.fn \in {"send_with", "send_async"} /\ ~Ev.x.ok /\ Ev.x.inv /\ (Ev.fn = "send_with" \/ Ev.x.done)
           THEN "InvRejectedSetterUninvoked"
+          \* graceful close (unbounded timeout) returns only after every event accepted before the call was yielded by some stream, with every
+          \* stream ended and dropped and the channel no longer open (C06)
+          ELSE IF On("InvCloseWaits") /\ Ev.k = "ret" /\ Ev.fn = "close"
+                  /\ (\E i \in 1..Len(accS) : tm.accR[i] < tm.call[P] /\ Count(delS, accS[i]) < Count(accS, accS[i])) THEN "InvCloseWaitsForBufferedEvents"
+          ELSE IF On("InvClosedAfterwards") /\ Ev.k = "ret" /\ Ev.fn = "close" /\ (Ev.x.v # 0 \/ Ev.x.running # 0 \/ Ev.x.open) THEN "InvClosedAfterwards"
           ELSE IF Ev.k = "final" THEN FinalBad(Ev.x)
           ELSE IF On("NoPanic") THEN EvBad ELSE ""
 
